@@ -479,7 +479,8 @@ func runC12(seed uint64, n int, out, stats string, args []string) {
 				addMon("c12-above-reserve"+sfx, fmt.Sprintf("C12: sale return %s exceeds the reserve: %s", f, replay), replay)
 			}
 			if sm.a.Cmp(sm.s) == 0 && f.Cmp(sm.r) != 0 {
-				addMon("c12-sell-all"+sfx, fmt.Sprintf("C12: selling the entire supply returns %s, not the reserve: %s", f, replay), replay)
+				// an integer branch: exact for every input the property quantifies over (up to 10^33 pip), whatever the callers pass
+				addMon("c12-sell-all", fmt.Sprintf("C12: selling the entire supply returns %s, not the reserve: %s", f, replay), replay)
 			}
 		}
 		if sm.k == 4 && f.Cmp(sm.s) > 0 {
